@@ -1471,6 +1471,30 @@ def rule_r9(E, M, tables, skippable_ids=()):
         for j in owners:
             per[j["self"]] = ms.always_sets(j["methods"]["exec"], sk)
         must[sk] = per
+    # map slots: a multi-instance producer must store its own instance on every Ok path when someone get()s instances
+    map_getters = defaultdict(list)
+    for j in M.jobs.values():
+        for sk, ts in j["reads"].items():
+            if M.slots[sk]["kind"] == "map" and any(t["op"] == "get" for t in ts):
+                map_getters[sk].append(j["self"])
+    for t in M.main_touches:
+        sk = (t["ctx"], t["field"])
+        if M.slots[sk]["kind"] == "map" and t["op"] == "get":
+            map_getters[sk].append("main-thread handle_success")
+    for sk, getters in sorted(map_getters.items()):
+        sv = M.slots[sk]
+        for j in M.jobs.values():
+            if sv["id"] not in (j["ids"] | j["also"]):
+                continue
+            if skippable_ids and (j["ids"] <= set(skippable_ids)):
+                continue
+            ok = ms.always_sets(j["methods"]["exec"], sk)
+            obl.append({"rule": "R9", "inst": f"{j['self']} stores its own {sk[0]}.{sk[1]} instance on every Ok path (read with get() by {sorted(set(getters))[:3]})", "ok": ok})
+            if not ok:
+                wp = ms.witness_path(j["methods"]["exec"], sk)
+                findings.append({"rule": "R9", "key": f"R9|map|{j['self']}|{sk[0]}.{sk[1]}",
+                                 "msg": f"{j['self']}::exec can return Ok without storing its {sk[0]}.{sk[1]} instance (lines {wp}) although its id / also_completes says it completes {fmt_id(sv['id'])} and {sorted(set(getters))[:3]} read instances with the panicking get() -> '... is not available' for inputs taking that path",
+                                 "loc": P.body_file_line(j["methods"]["exec"]), "detail": {"producer_exit_path_lines": wp}})
     # readers using the panicking get
     readers = []
     # a dynamically created job exists only if the slot guarding its creation site was present
